@@ -546,6 +546,17 @@ impl<A: Elem, B: Elem> VecPair<A, B> {
                 let rs = s_call(move || sv.into_boxed_slice());
                 self.promised = None;
                 return match (rb, rs) {
+                    (Ok(bb), Ok(sb)) if bb.len() > sb.len().saturating_add(4096) => {
+                        // a boxed slice that claims thousands of elements the vector never had
+                        // (for zero-sized elements: up to usize::MAX of them) must be neither
+                        // walked nor dropped; smaller discrepancies are left to the ordinary
+                        // oracles (contents, drop ledger)
+                        let (lb, ls) = (bb.len(), sb.len());
+                        std::mem::forget(bb);
+                        std::mem::forget(sb);
+                        extra = Some(("C15+C17", "boxed-slice-length-absurd", format!("the vector had {} elements, the boxed slice claims {}", ls, lb)));
+                        OpOutcome { b: Ok(Ret::Num(lb as u64)), s: Ok(Ret::Num(ls as u64)), extra }
+                    }
                     (Ok(bb), Ok(sb)) => {
                         let b = Ret::Elems(bb.iter().map(key).collect());
                         let s = Ret::Elems(sb.iter().map(key).collect());
